@@ -294,6 +294,24 @@ def rule_qindex(ctx: Ctx, rel: str, cname: str, hooks: List[str]):
                 continue
             callee = call_attr(holder)
             kind = ROLE_BY_CALLEE.get(callee)
+            if kind is None and isinstance(holder.func, ast.Name):
+                # a method picked from a class-keyed table of method names: X = getattr(state, TABLE[type(op)]); X(...)
+                bind = [a for a in ast.walk(fn) if isinstance(a, ast.Assign) and len(a.targets) == 1 and isinstance(a.targets[0], ast.Name)
+                        and a.targets[0].id == holder.func.id and isinstance(a.value, ast.Call) and isinstance(a.value.func, ast.Name)
+                        and a.value.func.id == "getattr" and len(a.value.args) == 2 and isinstance(a.value.args[1], ast.Subscript)]
+                if len(bind) == 1:
+                    tv = bind[0].value.args[1].value
+                    tname_ = tv.id if isinstance(tv, ast.Name) else tv.attr if isinstance(tv, ast.Attribute) else None
+                    dct = None
+                    ci_ = repo.cls(cname, rel)
+                    for st_ in list(m.tree.body) + list(ci_.node.body):
+                        if isinstance(st_, ast.Assign) and any(isinstance(t, ast.Name) and t.id == tname_ for t in st_.targets) and isinstance(st_.value, ast.Dict):
+                            dct = st_.value
+                    if dct is not None:
+                        kinds = {ROLE_BY_CALLEE.get(v.value) if isinstance(v, ast.Constant) else None for v in dct.values}
+                        if len(kinds) == 1 and None not in kinds:
+                            kind = kinds.pop()
+                            callee = f"{tname_}[...]"
             if kind is None:
                 raise AnalysisError(f"{rel}::{cname}.{hook}: backend primitive `{callee}` not in the role table")
             if kind == "named":
